@@ -1,6 +1,7 @@
 package smt
 
 import (
+	"strconv"
 	"bufio"
 	"fmt"
 	"io"
@@ -67,7 +68,21 @@ type Solver struct {
 	// that keeps every query in UFLIA.
 	Abstract bool
 	ufApps   []ufApp
+	// UFWindow: how many earlier applications of the same uninterpreted function get pairwise
+	// monotonicity lemmas with a new one (0 = none; set per harness with nd.UFWindow)
+	UFWindow int
+	// CheckCmd replaces (check-sat); $T is the timeout in ms (used for ideal-Q: nlsat first)
+	CheckCmd string
 }
+
+// ufWindow: how many earlier applications of the same uninterpreted function get pairwise
+// monotonicity lemmas with a new one (SYMGO_UFWIN overrides).
+var ufWindow = func() int {
+	if v, err := strconv.Atoi(os.Getenv("SYMGO_UFWIN")); err == nil && v >= 0 {
+		return v
+	}
+	return 24
+}()
 
 type ufApp struct {
 	op, name, a, b string
@@ -97,6 +112,9 @@ func (s *Solver) start() error {
 		return err
 	}
 	s.in, s.out = in, bufio.NewReaderSize(out, 1<<20)
+	if strings.Contains(s.Cmd[0], "cvc5") {
+		s.send("(set-logic ALL)")
+	}
 	s.send(Prelude)
 	return nil
 }
@@ -241,7 +259,7 @@ func (s *Solver) ref(t *Term) string {
 			s.send(fmt.Sprintf("(assert (=> (> %s 0) (and (>= %s 0) (< %s %s))))", b, name, name, b))
 		}
 		// pairwise monotonicity with earlier applications of the same function (bounded window)
-		lo := len(s.ufApps) - 24
+		lo := len(s.ufApps) - s.UFWindow
 		if lo < 0 {
 			lo = 0
 		}
@@ -295,7 +313,11 @@ func (s *Solver) Check(timeout time.Duration) Result {
 		ms = 1
 	}
 	s.send(fmt.Sprintf("(set-option :timeout %d)", ms))
-	s.send("(check-sat)")
+	if s.CheckCmd != "" {
+		s.send(strings.ReplaceAll(s.CheckCmd, "$T", strconv.Itoa(ms)))
+	} else {
+		s.send("(check-sat)")
+	}
 	res := Unknown
 	done := make(chan struct{})
 	var line string
